@@ -498,6 +498,18 @@ impl FromMeta<'_> for u32 {
     }
 }
 
+impl FromMeta<'_> for u16 {
+    fn from_meta(meta: &Sp<Meta>) -> Result<Self, FromMetaError<'_>> {
+        u16::try_from(i32::from_meta(meta)?).map_err(|_| FromMetaError::expected("an integer from 0 to 65535", meta))
+    }
+}
+
+impl FromMeta<'_> for u8 {
+    fn from_meta(meta: &Sp<Meta>) -> Result<Self, FromMetaError<'_>> {
+        u8::try_from(i32::from_meta(meta)?).map_err(|_| FromMetaError::expected("an integer from 0 to 255", meta))
+    }
+}
+
 impl FromMeta<'_> for f32 {
     fn from_meta(meta: &Sp<Meta>) -> Result<Self, FromMetaError<'_>> {
         match ScalarValue::from_meta(meta)? {
